@@ -233,8 +233,15 @@ func (w *world) useVerifier(v tink.Verifier, h *keyset.Handle, g *gen, bad func(
 		pres = append(pres, p)
 	}
 	addPre(nil)
+	// keysets of the large-keyset pass (more keys than any keyset of the other passes): the prefixes
+	// of the primary, the first and the last entry only, and a sample of the candidates — the loop
+	// below is quadratic in the number of keys otherwise
+	large := h.Len() > 12
 	for i := 0; i < h.Len(); i++ {
 		if e, err := h.Entry(i); err == nil {
+			if large && !(e.IsPrimary() || i == 0 || i == h.Len()-1) {
+				continue
+			}
 			addPre(prefixOf(tinkpb.OutputPrefixType_TINK, e.KeyID()))
 			addPre(prefixOf(tinkpb.OutputPrefixType_LEGACY, e.KeyID()))
 		}
@@ -248,6 +255,13 @@ func (w *world) useVerifier(v tink.Verifier, h *keyset.Handle, g *gen, bad func(
 		if cs > 0 {
 			cands = append(cands, derSig(rng, cs))
 		}
+	}
+	if large && len(cands) > 12 {
+		var sample [][]byte
+		for i := 0; i < 12; i++ {
+			sample = append(sample, cands[(i*len(cands))/12])
+		}
+		cands = sample
 	}
 	for _, pre := range pres {
 		for _, c := range cands {
